@@ -92,7 +92,8 @@ def case_strategy():
         plain = st.sampled_from([["cls", n] for n in KN] + [["obj"], ["cls", "int"], ["cls", "str"]])
         comb = st.tuples(st.sampled_from(["union", "inter"]), st.one_of(cust, plain), plain).map(
             lambda t: [t[0], [t[1], t[2]]])
-        ann = st.one_of(cust, cust, plain, comb)
+        depb = cust.map(lambda c: ["dep", c, "true"])  # a class predicate as the BOUND of a dependent type
+        ann = st.one_of(cust, cust, plain, comb, depb)
         ms = draw(G.method_sets(KN, ann, max_methods=5, max_pos=2, with_opt=False, allow_zero=False,
                                 hosts=("func", "func", "attr", "mc")))
         corpus = [["inst", n] for n in KN] + [["int", 1], ["str", "s"], ["inst", "object"]]
@@ -100,7 +101,7 @@ def case_strategy():
         n = draw(st.sampled_from([6, 12, 20, 30]))
         ops = []
         for _ in range(n):
-            k = draw(st.sampled_from(["call"] * 8 + ["reg", "unreg", "noop"]))
+            k = draw(st.sampled_from(["call"] * 8 + ["reg", "unreg", "noop", "derive"]))
             if k == "call":
                 ops.append(["call", draw(st.integers(0, len(pool) - 1))])
             else:
@@ -161,12 +162,25 @@ def run_case(spec):
             elif mutable and op[0] == "unreg" and len(registered) > 1:
                 mid = registered[op[1] % len(registered)]
                 r = capture(prog.ov.unregister, prog.fns[mid])
+                if r.kind == "config":
+                    continue  # locked by a derived function: nothing changed
                 if r.kind != "ok":
                     res.fail(f"unregister failed: {r.brief()}", None)
                     break
                 registered.remove(mid)
                 warmed.clear()
                 res.label("op:unreg")
+            elif mutable and op[0] == "derive":
+                # build and use a variant: that locks this function but does not change its methods
+                child = prog.ov.copy()
+                if spec["pool"]:
+                    c0 = spec["pool"][op[1] % len(spec["pool"])]
+                    a0 = [S.build_value(v, env) for v in c0["args"]]
+                    k0 = {k: S.build_value(v, env) for k, v in c0["kw"].items()}
+                    prog.H.start([])
+                    capture(child.dispatch if hasattr(child, "dispatch") else child,
+                            *([prog.obj] if prog.is_method else []), *a0, **k0)
+                res.label("op:derive-and-use-a-variant")
             elif mutable and op[0] == "noop":
                 # operations that do not change the set of methods: adding no mixin / the function itself
                 r = capture(prog.ov.add_mixins) if op[1] % 2 else capture(prog.ov.add_mixins, prog.ov)
@@ -180,6 +194,8 @@ def run_case(spec):
                     continue
                 mid = cand[op[1] % len(cand)]
                 r = capture(prog.register, mid)
+                if r.kind == "config":
+                    continue  # locked by a derived function: nothing changed
                 if r.kind != "ok":
                     res.fail(f"register failed: {r.brief()}", None)
                     break
